@@ -7,7 +7,7 @@ class C05(Prop):
                 "C05_dec_enc_le", "C05_read_leaf", "C05_read_inner", "C05_search_represented",
                 "C05_chunks_all_but_last_full", "C05_built_shape", "C05_layout_represents", "C05_search_bytes_eq_scan"]
     RULE = ("exhaustive over block counts n and fan-outs b (quick n<=40,b<=5; thorough n<=120 plus sizes around b^k up to 700, b<=9), "
-            "three section layouts (one chromosome monotone ends, several chromosomes, non-monotone ends as in bigBed), "
+            "three section layouts (one chromosome monotone ends, several chromosomes, non-monotone ends as in bigBed), plus 130-1030 chromosomes with 1-2 blocks each under fan-outs 2..256, "
             "queries starting/ending on every chosen section boundary and one base either side; "
             "non-trivial = at least 2 sections; distinct = distinct case text")
     CORRESPONDENCE = "R-tree index bytes and search answers of Model/RTree.v = get_rtreeindex/write_rtreeindex/search_cir_tree_inner"
@@ -64,6 +64,20 @@ class C05(Prop):
                     pos = rng.choice([0, 64, 1000])
                     ips = rng.choice([1, 3, 1024])
                     yield sx([b, ips, pos, secs, self.queries(rng, secs)]), [f"b={b}", kind, "levels~%d" % self.levels(n, b)]
+        # many chromosomes with few blocks each and a wide fan-out: index entries that span hundreds of
+        # chromosome ids (comparisons of chromosome ids must not be narrowed)
+        for nchrom, b in ((300, 256), (130, 129), (260, 16)) if tier == "quick" else ((300, 256), (130, 129), (260, 16), (700, 256), (520, 2), (1030, 32)):
+            secs = []; off = 1000
+            for c in range(nchrom):
+                for k in range(rng.choice([1, 1, 2])):
+                    st = rng.choice([0, 5, 100]) + 200 * k; ln = rng.choice([1, 10, 50])
+                    secs.append([c, st, st + ln, off, 12]); off += 12
+            qs = []
+            for c in sorted(set([0, 1, 2, 126, 127, 128, 129, 130, 255, 256, 257, nchrom - 2, nchrom - 1] + [rng.randrange(nchrom) for _ in range(8)])):
+                if c < nchrom:
+                    qs += [[c, 0, 1000], [c, 0, 1], [c, 100, 101], [c, 5, 6]]
+            qs.append([nchrom, 0, 10])
+            yield sx([b, 1, 64, secs, qs]), [f"b={b}", "many-chroms", "levels~%d" % self.levels(len(secs), b)]
         # degenerate: no sections at all (empty index)
         yield sx([2, 1, 0, [], [[0, 0, 10]]]), ["empty"]
 
